@@ -779,7 +779,16 @@ class Tr:
             if lhs[0] == 'path' and len(lhs[1]) == 1 and lhs[1][0] in env.vars:
                 if not env.vars[lhs[1][0]]['mut']:
                     self.fail(env, f'assignment to immutable {lhs[1][0]}')
-                return [f'{ind}{lname(lhs[1][0])} := {self.v(rhs, env)}']
+                if rhs[0] in ('if', 'match', 'block') and self.has_effect(rhs, env):
+                    # `x = match .. { .. => return .., .. => v }`: the arms yield the value or leave
+                    lines = self.ctl(rhs, env, 'val', ind + '  ')
+                    j = 0
+                    while not re.match(r'\s*(if|match) ', lines[j]):
+                        j += 1
+                    return [ind + l.strip() for l in lines[:j]] + \
+                        [f'{ind}{lname(lhs[1][0])} ← {lines[j].strip()}'] + lines[j + 1:]
+                t = self.v(rhs, env)
+                return self.take_pre(env, ind) + [f'{ind}{lname(lhs[1][0])} := {t}']
             self.fail(env, 'assignment target')
         if k == 'return':
             return self.ret(e[1], env, ind)
